@@ -80,4 +80,11 @@ CHECKS["C05"] = {
   "design_ref": "DESIGN.md §5 C05",
   "note": "Streams of <= 15 wire bytes exhaustively; larger sizes only as length classes. Read timeouts of FramedTransport (a delay longer than the timeout) are outside this model.",
 }
+CHECKS["C04"] = {
+  "level": "model_checking",
+  "technique": "TLA+ spec of the handshake (Handshake.tla): API state machine model-checked by TLC with a weakened variant, every transition replayed on HandshakeStateMachine; peer-deviation scripts enumerated from the spec and run against the real Connection::connect over TCP with the wire transcript compared with the spec's byte layouts",
+  "text": "TLC checks ProofBeforeConnected / ProofIsFresh / NegotiatedOnlyAfterChallenge over all call sequences (any order, valid and invalid argument classes, reuse after disconnect) and finds the counterexample when disconnect keeps the challenge. Every model transition is executed on the real object for 4 parameter sets: Connected implies the model's proof, a right ack connects, flags are the bytewise AND, emitted messages equal the spec layouts, digests equal an independent MD5. All 65 peer scripts (each deviation at each peer turn incl. silence, close, oversized, out-of-order, reflected digest) run over TCP: connected exactly on the conforming path, an error within 4x timeout otherwise.",
+  "design_ref": "DESIGN.md §5 C04",
+  "note": "MD5 uninterpreted in the spec (interpreted by python hashlib + RFC 1321 transcription). Guarded hook: EPMD port override. Real time with a 250 ms handshake timeout.",
+}
 NOT_APPLICABLE = {}
